@@ -384,6 +384,12 @@ pub enum EvOp {
     /// The server stops (all clients are dropped) / starts again.
     StopServer,
     StartServer,
+    /// The transport closes `c`'s connection inside the server's next frame, after the library's
+    /// send systems queued that frame's messages and before the transport flushes them.
+    DisconnectAfterSend(u8),
+    /// Client `c` emits a mapped event that references an entity it kept from an earlier session
+    /// (no longer in its entity map): it cannot be translated and must not reach the server.
+    EmitCStale(u8),
     /// The server starts and accepts client `c` before its first frame.
     StartServerWith(u8),
     /// The connection of `c` drops after this round's client messages were handed to the server
@@ -426,6 +432,8 @@ impl EvOp {
             EvOp::StopServer => "stop server".into(),
             EvOp::StartServer => "start server".into(),
             EvOp::StartServerWith(c) => format!("start server and connect c{c} in the same frame"),
+            EvOp::EmitCStale(c) => format!("c{c} emits CM referencing an entity left over from an earlier session"),
+            EvOp::DisconnectAfterSend(c) => format!("connection of c{c} closed after the server's send systems of this frame"),
             EvOp::LateDisconnect(c) => format!("disconnect c{c} after its messages reached the server"),
             EvOp::PreMap(c) => format!("insert ClientEntityMap on c{c} before authorization"),
             EvOp::ReMark(s) => format!("re-insert Replicated on e{}", s + 1),
@@ -540,6 +548,8 @@ pub struct EvExec {
     events_observed: u32,
     ops_applied: u32,
     late_disconnect: Option<usize>,
+    /// client -> entities it kept from sessions that have ended
+    orphans: BTreeMap<usize, BTreeSet<Entity>>,
     premapped: BTreeSet<usize>,
     /// connection entities that were closed: events attributed to them later are violations
     closed_conns: BTreeSet<u64>,
@@ -565,6 +575,20 @@ impl EvCell {
 
     fn connected(x: &EvExec, c: usize) -> bool {
         x.sim.clients[c].conn.is_some()
+    }
+
+    /// A live client entity that was replicated state of an earlier session of this client (the
+    /// harness's own record, taken when that session ended).
+    fn stale_entity(x: &EvExec, c: usize) -> Option<Entity> {
+        let w = x.sim.clients[c].app.world();
+        x.orphans.get(&c).and_then(|s| s.iter().copied().find(|e| w.get_entity(*e).is_ok()))
+    }
+
+    /// Records the client's replicated entities when its session ends.
+    fn note_orphans(x: &mut EvExec, c: usize) {
+        let w = x.sim.clients[c].app.world();
+        let ents: Vec<Entity> = w.iter_entities().filter(|e| e.contains::<Replicated>()).map(|e| e.id()).collect();
+        x.orphans.entry(c).or_default().extend(ents);
     }
 
     fn op_enabled(&self, x: &EvExec, op: EvOp) -> bool {
@@ -597,7 +621,8 @@ impl EvCell {
             EvOp::StopServer => x.sim.server_running(),
             EvOp::StartServer => !x.sim.server_running(),
             EvOp::StartServerWith(c) => !x.sim.server_running() && !Self::connected(x, c as usize),
-            EvOp::LateDisconnect(c) => Self::connected(x, c as usize),
+            EvOp::LateDisconnect(c) | EvOp::DisconnectAfterSend(c) => Self::connected(x, c as usize),
+            EvOp::EmitCStale(c) => Self::connected(x, c as usize) && Self::stale_entity(x, c as usize).is_some(),
             EvOp::PreMap(c) => {
                 self.cfg.auth == Auth::Custom
                     && Self::connected(x, c as usize)
@@ -647,15 +672,31 @@ impl EvCell {
                 if let Some(conn) = x.sim.clients[c as usize].conn {
                     x.closed_conns.insert(conn.to_bits());
                 }
+                Self::note_orphans(x, c as usize);
                 x.sim.disconnect(c as usize)
             }
-            EvOp::StopServer => x.sim.stop_server(),
+            EvOp::StopServer => {
+                for c in 0..x.sim.clients.len() {
+                    Self::note_orphans(x, c);
+                }
+                x.sim.stop_server()
+            }
             EvOp::StartServer => x.sim.start_server(),
             EvOp::StartServerWith(c) => {
                 x.sim.start_server();
                 x.sim.connect(c as usize);
             }
             EvOp::LateDisconnect(c) => x.late_disconnect = Some(c as usize),
+            EvOp::EmitCStale(c) => {
+                let e = Self::stale_entity(x, c as usize).unwrap();
+                x.sim.clients[c as usize].app.world_mut().send_event(CM { seq: seq(CK::CM.tag(), 0), e });
+            }
+            EvOp::DisconnectAfterSend(c) => {
+                if let Some(conn) = x.sim.clients[c as usize].conn {
+                    x.closed_conns.insert(conn.to_bits());
+                }
+                x.sim.disconnect_after_send(c as usize);
+            }
             EvOp::PreMap(c) => {
                 let conn = x.sim.clients[c as usize].conn.unwrap();
                 x.sim
@@ -1350,6 +1391,7 @@ impl Scenario for EvCell {
             events_observed: 0,
             ops_applied: 0,
             late_disconnect: None,
+            orphans: BTreeMap::new(),
             premapped: BTreeSet::new(),
             closed_conns: BTreeSet::new(),
         };
